@@ -3,6 +3,7 @@ package main
 // C17 — chk assertion helpers pass exactly when the expected item is present.
 
 import (
+	"os"
 	"fmt"
 	"go/ast"
 	"go/token"
@@ -29,6 +30,7 @@ func rulesC17(c *Ctx) {
 	ruleCountHelpers(c)
 	ruleCachedDelegates(c)
 	ruleGetEntriesLookups(c)
+	ruleStatusCompare(c)
 }
 
 // detailKeyFields: the key fields of client.OpDetailsResults (everything except Type).
@@ -133,16 +135,13 @@ func ruleFoundFlag(c *Ctx) {
 			}
 			return true
 		})
-		if flag == nil {
-			c.vanished(rule, fi.Name, "found flag", "no boolean flag set to true found")
-			continue
-		}
+		// (no flag: the search returns as soon as the comparison succeeds — judged by the same path conditions)
 		ev := func(n ast.Node) []Event {
 			var out []Event
 			inspectNoFuncLit(n, func(m ast.Node) bool {
 				switch x := m.(type) {
 				case *ast.AssignStmt:
-					if len(x.Lhs) == 1 && objOfIdent(info, x.Lhs[0]) == flag && x.Tok == token.ASSIGN {
+					if flag != nil && len(x.Lhs) == 1 && objOfIdent(info, x.Lhs[0]) == flag && x.Tok == token.ASSIGN {
 						out = append(out, Event{Kind: "set-found", Node: x})
 					}
 				}
@@ -159,13 +158,25 @@ func ruleFoundFlag(c *Ctx) {
 		}
 		bad := ""
 		nFatal, nPass := 0, 0
+		cmpTaken := func(p Path, upto int) bool {
+			for _, cs := range p.Conds {
+				if cs.At <= upto && cs.Expr != nil && cs.Taken {
+					if call, ok := ast.Unparen(cs.Expr).(*ast.CallExpr); ok {
+						if f, ok := calleeObj(info, call).(*types.Func); ok && f.Name() == spec.cmp {
+							return true
+						}
+					}
+				}
+			}
+			return false
+		}
 		for _, p := range paths {
-			found := false
+			// found: the comparison succeeded for some candidate on this path
+			found := cmpTaken(p, len(p.Events))
 			for i, e := range p.Events {
 				if e.Kind != "set-found" {
 					continue
 				}
-				found = true
 				// the assignment must be guarded by the comparison being true
 				okGuard := false
 				for _, cs := range p.Conds {
@@ -446,8 +457,8 @@ func ruleCachedDelegates(c *Ctx) {
 					if o := objOfIdent(info, ie.X); o != nil {
 						idx[o] = true
 						if rv != nil {
-							if kt := canonTerm(fi, ie.Index); strings.HasPrefix(kt, rv.Name()+".") {
-								fillKey[o] = strings.TrimPrefix(kt, rv.Name()+".")
+							if kt := canonTerm(fi, ie.Index); strings.HasPrefix(kt, varKey(rv)+".") {
+								fillKey[o] = strings.TrimPrefix(kt, varKey(rv)+".")
 							}
 						}
 					}
@@ -478,7 +489,7 @@ func ruleCachedDelegates(c *Ctx) {
 					if ie, ok := ast.Unparen(cl.Elts[0]).(*ast.IndexExpr); ok && idx[objOfIdent(info, ie.X)] {
 						// key derived from the want, and it is the field the index was filled by
 						kt := canonTerm(fi, ie.Index)
-						if wv == nil || !strings.HasPrefix(kt, wv.Name()+".") || fillKey[objOfIdent(info, ie.X)] == "" || strings.TrimPrefix(kt, wv.Name()+".") != fillKey[objOfIdent(info, ie.X)] {
+						if wv == nil || !strings.HasPrefix(kt, varKey(wv)+".") || fillKey[objOfIdent(info, ie.X)] == "" || strings.TrimPrefix(kt, varKey(wv)+".") != fillKey[objOfIdent(info, ie.X)] {
 							good = false
 						}
 					} else {
@@ -573,18 +584,71 @@ func ruleGetEntriesLookups(c *Ctx) {
 		}
 		seenFld[a[k.Table]] = k.Table
 	}
-	// lookup arms: absent → Fatal
-	for _, cc := range switches[1].Body.List {
-		cl := cc.(*ast.CaseClause)
-		if cl.List == nil {
-			continue
-		}
-		paths, _ := enumPaths(info, cl.Body, func(ast.Node) []Event { return nil })
-		for _, p := range paths {
-			for _, cs := range p.Conds {
-				if cs.Expr != nil && types.ExprString(cs.Expr) == "!ok" && cs.Taken && p.End != "panic" {
-					bad = "an absent entry does not end in Fatal"
+	// lookup: on every path through one iteration of the wants loop, an absent key ends in Fatal and a present one does not
+	// (decided from what the path knows about the lookup's own comma-ok result: a flag that outlives the iteration does not count)
+	{
+		var wloop *ast.RangeStmt
+		ast.Inspect(fi.Decl.Body, func(n ast.Node) bool {
+			if rs, ok := n.(*ast.RangeStmt); ok && containsNode(rs.Body, switches[1]) {
+				wloop = rs
+			}
+			return true
+		})
+		if wloop == nil {
+			bad = "the lookup switch is not inside a loop over the wanted entries"
+		} else {
+			ev := func(n ast.Node) []Event {
+				var out []Event
+				inspectNoFuncLit(n, func(m ast.Node) bool {
+					as, ok := m.(*ast.AssignStmt)
+					if !ok || len(as.Lhs) != 2 || len(as.Rhs) != 1 || !containsNode(switches[1], as) {
+						return true
+					}
+					if ie, ok := ast.Unparen(as.Rhs[0]).(*ast.IndexExpr); ok {
+						if _, isSel := ast.Unparen(ie.X).(*ast.SelectorExpr); isSel {
+							out = append(out, Event{Kind: "lookup", Node: as, Data: objOfIdent(info, as.Lhs[1])})
+						}
+					}
+					return true
+				})
+				return out
+			}
+			lpaths, lpe := enumPaths(info, wloop.Body.List, ev)
+			c.Sites += len(lpaths)
+			nAbsent, nPresent := 0, 0
+			if lpe.overflow {
+				bad = "cannot enumerate the lookup loop"
+			}
+			for _, p := range lpaths {
+				li := idx(p, "lookup")
+				if li < 0 {
+					continue
 				}
+				okObj, _ := p.Events[li].Data.(types.Object)
+				if okObj == nil {
+					bad = "a lookup does not keep its found result"
+					continue
+				}
+				if os.Getenv("GL_DEBUG") != "" {
+					fmt.Println("DBG", factsAfter(info, p, li, len(p.Events)).Obj(okObj), p.End, p.describe(c.P))
+				}
+				switch factsAfter(info, p, li, len(p.Events)).Obj(okObj) {
+				case -1:
+					nAbsent++
+					if p.End != "panic" {
+						bad = "an absent entry does not end in Fatal within the same iteration: " + p.describe(c.P)
+					}
+				case +1:
+					nPresent++
+					if p.End == "panic" {
+						bad = "a present entry ends in Fatal: " + p.describe(c.P)
+					}
+				default:
+					bad = "a path through the lookup does not depend on whether the entry was found: " + p.describe(c.P)
+				}
+			}
+			if bad == "" && (nAbsent < 5 || nPresent < 5) {
+				bad = fmt.Sprintf("expected an absent and a present path for each of the five kinds, found %d / %d", nAbsent, nPresent)
 			}
 		}
 	}
@@ -596,8 +660,8 @@ func ruleGetEntriesLookups(c *Ctx) {
 		loopName := []string{"index", "lookup"}[li]
 		var loop *ast.RangeStmt
 		ast.Inspect(fi.Decl.Body, func(n ast.Node) bool {
-			if rs, ok := n.(*ast.RangeStmt); ok && rs.Body.Pos() <= ts.Pos() && ts.End() <= rs.Body.End() {
-				loop = rs
+			if rs, ok := n.(*ast.RangeStmt); ok && containsNode(rs.Body, ts) {
+				loop = rs // (the innermost one wins: Inspect visits outer loops first)
 			}
 			return true
 		})
@@ -613,7 +677,7 @@ func ruleGetEntriesLookups(c *Ctx) {
 		// the key of this iteration's instance: <something derived from the loop value>.NetworkInstance
 		isInstKey := func(e ast.Expr) bool {
 			t := canonTerm(fi, e)
-			return strings.HasSuffix(t, ".NetworkInstance") && strings.HasPrefix(t, rv.Name()+".")
+			return strings.HasSuffix(t, ".NetworkInstance") && strings.HasPrefix(t, varKey(rv)+".")
 		}
 		cacheVarOf := func(e ast.Expr) types.Object { // X in X.field[k]
 			ie, ok := ast.Unparen(e).(*ast.IndexExpr)
@@ -716,4 +780,125 @@ func ruleGetEntriesLookups(c *Ctx) {
 		}
 		c.check(badNI == "" && uses >= 5, rule, fi.Name, loopName+" loop: the cache used is the one of the entry's own network instance", c.P.pos(loop.Pos()), fmt.Sprintf("%d uses on %d paths, each after binding the cache to <value>.NetworkInstance", uses, len(paths)), badNI)
 	}
+}
+
+// R17.x HasRecvClientErrorWithStatus compares real statuses, one fresh copy per
+// candidate: (a) the message handed to the comparison comes from
+// status.FromError(e) and the comparison is reached only when that conversion
+// succeeded (a plain error is skipped, not turned into a synthetic status);
+// (b) the copy that is edited before the comparison (message blanked, details
+// cleared) is made inside the innermost loop that contains the comparison, so
+// the edits made for one candidate do not leak into the next.
+func ruleStatusCompare(c *Ctx) {
+	const rule = "STATUS-COMPARE"
+	fi := c.need("chk", "", "HasRecvClientErrorWithStatus")
+	if fi == nil {
+		return
+	}
+	info := fi.Pkg.TypesInfo
+	var cmp *ast.CallExpr
+	for _, call := range callsIn(fi.Decl.Body) {
+		if f, ok := calleeObj(info, call).(*types.Func); ok && f.Name() == "Equal" && len(call.Args) == 2 {
+			cmp = call
+		}
+	}
+	if cmp == nil {
+		c.vanished(rule, fi.Name, "comparison", "no Equal(…) comparison")
+		return
+	}
+	ev := func(n ast.Node) []Event {
+		var out []Event
+		for _, call := range callsIn(n) {
+			f, ok := calleeObj(info, call).(*types.Func)
+			if !ok {
+				continue
+			}
+			switch {
+			case f.Name() == "FromError" && f.Pkg() != nil && strings.HasSuffix(f.Pkg().Path(), "grpc/status"):
+				d := &addEvData{call: call}
+				if as := assignedFromCall(info, n, call); len(as) == 2 {
+					d.ok = as[1]
+				}
+				out = append(out, Event{Kind: "from-error", Node: call, Data: d})
+			case f.Name() == "Convert" && f.Pkg() != nil && strings.HasSuffix(f.Pkg().Path(), "grpc/status"):
+				out = append(out, Event{Kind: "convert", Node: call})
+			case call == cmp:
+				out = append(out, Event{Kind: "compare", Node: call})
+			}
+		}
+		return out
+	}
+	paths, pe := enumFunc(fi, ev, func(n ast.Node) bool { _, isRange := n.(*ast.RangeStmt); return isRange })
+	c.Sites += len(paths)
+	if pe.overflow || len(pe.unsup) > 0 {
+		c.undecided(rule, fi.Name, "body", c.P.pos(fi.Decl.Pos()), "path enumeration incomplete")
+		return
+	}
+	bad := ""
+	nCmp := 0
+	for _, p := range paths {
+		ci := idx(p, "compare")
+		if ci < 0 {
+			continue
+		}
+		nCmp++
+		if p.has("convert") {
+			bad = "the received error is converted with status.Convert: an error that is not a gRPC status becomes a synthetic Unknown status and can satisfy the check"
+			continue
+		}
+		fi2 := lastIdxBefore(p, "from-error", ci)
+		if fi2 < 0 {
+			bad = "the comparison is reached without converting the received error with status.FromError: " + p.describe(c.P)
+			continue
+		}
+		d := p.Events[fi2].Data.(*addEvData)
+		if d.ok == nil || factsAfter(info, p, fi2, ci).Obj(d.ok) != +1 {
+			bad = "the comparison is reached although status.FromError did not report a status: " + p.describe(c.P)
+		}
+	}
+	c.check(bad == "" && nCmp >= 1, rule, fi.Name, "only real statuses are compared", c.P.pos(cmp.Pos()), fmt.Sprintf("%d paths reach the comparison, all after FromError succeeded", nCmp), bad)
+	// (b) freshness of the edited copy
+	var inner ast.Node
+	ast.Inspect(fi.Decl.Body, func(n ast.Node) bool {
+		switch x := n.(type) {
+		case *ast.RangeStmt:
+			if containsNode(x.Body, cmp) {
+				inner = x.Body
+			}
+		case *ast.ForStmt:
+			if containsNode(x.Body, cmp) {
+				inner = x.Body
+			}
+		}
+		return true
+	})
+	fresh, why := true, ""
+	if v, ok := objOfIdent(info, cmp.Args[0]).(*types.Var); ok && inner != nil {
+		edited := false
+		ast.Inspect(fi.Decl.Body, func(n ast.Node) bool {
+			if as, ok := n.(*ast.AssignStmt); ok {
+				for _, l := range as.Lhs {
+					if o, p := selectorPath(info, l); o == v && len(p) > 0 {
+						edited = true
+					}
+				}
+			}
+			return true
+		})
+		if edited {
+			declInside := false
+			ast.Inspect(inner, func(n ast.Node) bool {
+				if id, ok := n.(*ast.Ident); ok && info.Defs[id] == v {
+					declInside = true
+				}
+				return true
+			})
+			if !declInside {
+				fresh, why = false, "the message "+v.Name()+" is edited before the comparison but is created outside the innermost loop over the accepted statuses: the edits made for one candidate carry over to the next"
+			}
+		}
+	} else if inner == nil {
+		fresh, why = false, "the comparison is not inside a loop over the candidates"
+	}
+	c.check(fresh, rule, fi.Name, "each candidate is compared with a fresh copy of the received status", c.P.pos(cmp.Pos()), "the edited copy is declared inside the innermost loop", why)
 }
